@@ -197,6 +197,42 @@ impl<T: FixedPointOps<DECIMALS>, const DECIMALS: u8> One for Fixed<T, DECIMALS> 
     }
 }
 
+/// Narrow-width instantiations used only by the solver-based checks in `/verif`
+/// (`--cfg gmsol_verif`). Whole-unit exponents use the same loop as the `u64`/`u128`
+/// implementations; other exponents are not supported (`None`).
+#[cfg(gmsol_verif)]
+mod verif_narrow {
+    use super::{Fixed, FixedPointOps};
+    use num_traits::{CheckedMul, One};
+
+    macro_rules! narrow {
+        ($u:ty) => {
+            impl<const DECIMALS: u8> FixedPointOps<DECIMALS> for $u {
+                const UNIT: Self = (10 as $u).pow(DECIMALS as u32);
+
+                #[allow(clippy::arithmetic_side_effects)]
+                fn checked_pow_fixed(&self, exponent: &Self) -> Option<Self> {
+                    let unit = <Self as FixedPointOps<DECIMALS>>::UNIT;
+                    if *exponent % unit == 0 {
+                        let exp = exponent / unit;
+                        let mut ans = Fixed::<Self, DECIMALS>::one();
+                        let base = Fixed::<Self, DECIMALS>::from_inner(*self);
+                        for _ in 0..exp {
+                            ans = ans.checked_mul(&base)?;
+                        }
+                        return Some(ans.0);
+                    }
+                    None
+                }
+            }
+        };
+    }
+
+    narrow!(u8);
+    narrow!(u16);
+    narrow!(u32);
+}
+
 /// Decimal type with `9` decimals and backed by [`u64`]
 pub type U64D9 = Fixed<u64, 9>;
 
